@@ -16,6 +16,7 @@ PROP = 'C09'
 LEAN_TARGETS = ['VivProps.C09']
 DRIVER = 'Struct'
 REQUIRED_THEOREMS = [
+    'generate_reports_flow_at_any_depth', 
     'frame', 'frame_history', 'history_log', 'history_invariant',
     'add_rejects_existing', 'add_creates', 'add_plain_exact',
     'delete_partial', 'delete_frame', 'delete_keys', 'delete_by_path_witness',
